@@ -114,6 +114,33 @@ func mkReflectValue(t types.Type, p Value) Value {
 	return StructV{TypeV{T: t}, p, Const(64, reflectKind(t))}
 }
 
+// An addressable reflect.Value: slot 1 is the address of the variable of type t
+// (reflect's flagIndir|flagAddr representation).
+const rflagIndir, rflagAddr = 1 << 7, 1 << 8
+
+func mkReflectLvalue(t types.Type, addr Value) Value {
+	return StructV{TypeV{T: t}, addr, Const(64, reflectKind(t)|rflagIndir|rflagAddr)}
+}
+
+func reflectValueIndir(v Value) bool {
+	s := v.(StructV)
+	fl, ok := s[2].(*Term)
+	return ok && fl.IsConst() && fl.C&rflagIndir != 0
+}
+
+// reflectValueWord returns the value held by a reflect.Value of type t (loading it if addressable).
+func reflectValueWord(st *State, v Value) (types.Type, Value) {
+	t, p := reflectValueParts(v)
+	if reflectValueIndir(v) {
+		pp, ok := p.(Ptr)
+		if !ok || pp.IsNil() {
+			panic(cutErr{"addressable reflect.Value without address"})
+		}
+		return t, st.load(pp, t)
+	}
+	return t, p
+}
+
 func init() {
 	regIntrinsic("reflect.TypeOf", func(w *Worker, st *State, f *Frame, x *ssa.Call, fv FuncV, a []Value) (Value, bool) {
 		chkOpaque(a[0])
@@ -171,25 +198,110 @@ func init() {
 		return ret(mkReflectValue(t, NilPtr))
 	})
 	ptrOf := func(w *Worker, st *State, f *Frame, x *ssa.Call, fv FuncV, a []Value) (Value, bool) {
-		_, p := reflectValueParts(a[0])
+		t, p := reflectValueWord(st, a[0])
+		if !pointerShaped(t) {
+			panic(cutErr{"reflect.Value.Pointer of " + t.String()})
+		}
 		return ret(p)
 	}
 	regIntrinsic("(reflect.Value).Pointer", ptrOf)
 	regIntrinsic("(reflect.Value).UnsafePointer", ptrOf)
 	regIntrinsic("(reflect.Value).IsNil", func(w *Worker, st *State, f *Frame, x *ssa.Call, fv FuncV, a []Value) (Value, bool) {
-		_, p := reflectValueParts(a[0])
-		pp, ok := p.(Ptr)
-		if !ok {
-			panic(cutErr{"reflect.Value.IsNil on non-pointer"})
+		_, p := reflectValueWord(st, a[0])
+		switch pp := p.(type) {
+		case Ptr:
+			return ret(Bool(pp.IsNil()))
+		case IfaceV:
+			return ret(Bool(pp.T == nil))
 		}
-		return ret(Bool(pp.IsNil()))
+		panic(cutErr{"reflect.Value.IsNil on non-pointer"})
+	})
+	regIntrinsic("(reflect.Value).Elem", func(w *Worker, st *State, f *Frame, x *ssa.Call, fv FuncV, a []Value) (Value, bool) {
+		t, p := reflectValueWord(st, a[0])
+		switch u := t.Underlying().(type) {
+		case *types.Pointer:
+			pp, ok := p.(Ptr)
+			if !ok {
+				panic(cutErr{"reflect.Value.Elem of odd pointer"})
+			}
+			if pp.IsNil() {
+				return ret(zeroValue(x.Type()))
+			}
+			return ret(mkReflectLvalue(u.Elem(), pp))
+		case *types.Interface:
+			iv, ok := p.(IfaceV)
+			if !ok {
+				panic(cutErr{"reflect.Value.Elem of odd interface"})
+			}
+			if iv.T == nil {
+				return ret(zeroValue(x.Type()))
+			}
+			if !pointerShaped(iv.T) {
+				panic(cutErr{"reflect.Value.Elem: interface holding non-pointer " + iv.T.String()})
+			}
+			return ret(mkReflectValue(iv.T, iv.D))
+		}
+		panic(goPanic{msg: "reflect: call of reflect.Value.Elem on " + t.String()})
+	})
+	regIntrinsic("(reflect.Value).Set", func(w *Worker, st *State, f *Frame, x *ssa.Call, fv FuncV, a []Value) (Value, bool) {
+		t, addr := reflectValueParts(a[0])
+		if !reflectValueIndir(a[0]) {
+			panic(goPanic{msg: "reflect: reflect.Value.Set using unaddressable value"})
+		}
+		xt, xv := reflectValueWord(st, a[1])
+		if _, isI := t.Underlying().(*types.Interface); isI {
+			if _, srcI := xt.Underlying().(*types.Interface); !srcI {
+				if !pointerShaped(xt) {
+					panic(cutErr{"reflect.Value.Set: boxing " + xt.String()})
+				}
+				xv = IfaceV{T: xt, D: xv}
+			}
+		} else if !sameType(t, xt) {
+			panic(goPanic{msg: "reflect.Set: value of type " + xt.String() + " is not assignable to type " + t.String()})
+		}
+		st.store(addr.(Ptr), t, xv)
+		return ret(nil)
+	})
+	regIntrinsic("(*reflect.rtype).Field", func(w *Worker, st *State, f *Frame, x *ssa.Call, fv FuncV, a []Value) (Value, bool) {
+		t := typeOfRecv(a[0])
+		u, ok := t.Underlying().(*types.Struct)
+		if !ok {
+			panic(goPanic{msg: "reflect: Field of non-struct type " + t.String()})
+		}
+		iv, ok := a[1].(*Term)
+		if !ok || !iv.IsConst() || int(iv.C) >= u.NumFields() {
+			panic(cutErr{"reflect.Type.Field with symbolic or out-of-range index"})
+		}
+		i := int(iv.C)
+		flds := make([]*types.Var, u.NumFields())
+		for j := range flds {
+			flds[j] = u.Field(j)
+		}
+		offs := sizes.Offsetsof(flds)
+		sf := zeroValue(x.Type()).(StructV) // Name PkgPath Type Tag Offset Index Anonymous
+		sf[0] = constStr(u.Field(i).Name())
+		sf[2] = w.reflectTypeValue(u.Field(i).Type())
+		sf[3] = constStr(u.Tag(i))
+		sf[4] = Const(64, uint64(offs[i]))
+		sf[6] = Bool(u.Field(i).Embedded())
+		return ret(sf)
+	})
+	regIntrinsic("(*reflect.rtype).NumField", func(w *Worker, st *State, f *Frame, x *ssa.Call, fv FuncV, a []Value) (Value, bool) {
+		u, ok := typeOfRecv(a[0]).Underlying().(*types.Struct)
+		if !ok {
+			panic(goPanic{msg: "reflect: NumField of non-struct type"})
+		}
+		return ret(Const(64, uint64(u.NumFields())))
 	})
 	regIntrinsic("(reflect.Value).Type", func(w *Worker, st *State, f *Frame, x *ssa.Call, fv FuncV, a []Value) (Value, bool) {
 		t, _ := reflectValueParts(a[0])
 		return ret(w.reflectTypeValue(t))
 	})
 	regIntrinsic("(reflect.Value).Interface", func(w *Worker, st *State, f *Frame, x *ssa.Call, fv FuncV, a []Value) (Value, bool) {
-		t, p := reflectValueParts(a[0])
+		t, p := reflectValueWord(st, a[0])
+		if iv, ok := p.(IfaceV); ok {
+			return ret(iv)
+		}
 		if !pointerShaped(t) {
 			panic(cutErr{"reflect.Value.Interface of non-pointer kind"})
 		}
